@@ -58,6 +58,11 @@ def inners():
                        ('rep', ('str', 'b'), ('name', 'n'), ('name', 'n'))), {}, []),
         ('let-read', ('let', 'v', T, ('py', 'v')), {}, []),
         ('let-where', ('let', 'v', T, ('where', T, ('py', 'lambda w: w != v'))), {}, []),
+        # expressions that mention a rule / an ignorable literal but never get to call anything
+        ('empty-literal-ignore', ('str', ''), {}, [('ignore', ('re', ' +', False))]),
+        ('zero-count-ref', ('rep', ('ref', 'Rb'), 0, 0), {'Rb': ('str', 'b')}, []),
+        ('zero-count-literal-ignore', ('rep', ('str', 'a'), None, 0), {}, [('ignore', ('str', ' '))]),
+        ('zero-count-call', ('seq', [('rep', ('call', 'W', [('str', 'b')]), 0, 0), ('opt', ('str', 'a'))]), {}, [('rule', 'W', ['p'], ('seq', [('ref', 'p'), ('opt', ('str', 'b'))]))]),
         # a choice whose LAST alternative always succeeds and is the only place that calls a rule / template
         ('choice-opt-ref', ('alt', [('str', 'a'), ('opt', ('ref', 'Rb'))]), {'Rb': ('str', 'b')}, []),
         ('choice-star-ref', ('alt', [('str', 'a'), ('star', ('ref', 'Rb'))]), {'Rb': ('str', 'b')}, []),
